@@ -179,7 +179,8 @@ def walk_script(job):
     index = {(n, o): i for i, (n, o, _) in enumerate(persistent)}
     objs = project.ObjTable()
     prev = project.snapshot(objs, [t0])
-    tr = {"text": "model:" + str(t0), "start": project.term(t0), "steps": [], "script": [], "model_final": norm_term(final), "agree": True, "drift": ""}
+    tr = {"text": "model:" + str(t0), "start": project.term(t0), "steps": [], "script": [], "model_final": norm_term(final), "agree": True, "drift": "",
+          "job": {"start": start, "script": [list(x) for x in script], "final": final}}
     cur = t0
     for rule, opt, path in script:
         node = c08.navigate(cur, path)
